@@ -1180,8 +1180,41 @@ fn c10_periodic(r: &Runner) {
     }
 }
 
+/// pow_mod with exponents of every bit length class up to a type wider than 4096 bits (window sizes / tables of a
+/// windowed exponentiation are chosen from the exponent's bit length): 4672 bits = 73 limbs.
+fn c10_long_exponents(r: &Runner) {
+    if SWEEP {
+        return;
+    }
+    let bits = 4672usize;
+    let n = nlimbs(bits);
+    let g = golden(2 * n);
+    let dense: Limbs = (0..n).map(|i| g[i] | 1).collect();
+    let dense2: Limbs = (0..n).map(|i| g[i + n]).collect();
+    let mut exps: Vec<BigUint> = vec![];
+    for k in [7usize, 25, 81, 241, 673, 1793, 4095, 4096, 4097, 4608, 4609, 4610, 4671] {
+        exps.extend([pow2(k), pow2(k) + 1u32, pow2(k + 1) - 1u32]);
+    }
+    exps.push(big(&dense2));
+    exps.retain(|e| e.bits() as usize <= bits);
+    let bases: Vec<BigUint> = vec![BigUint::from(2u32), BigUint::from(3u32), big(&dense2), pow2(bits) - 1u32];
+    let moduli: Vec<BigUint> = vec![big(&dense), pow2(bits) - 1u32, BigUint::from(97u32), pow2(64) + 13u32, pow2(4000)];
+    let mut cases: Vec<(Limbs, Limbs, Limbs)> = vec![];
+    for e in &exps {
+        for (k, b) in bases.iter().enumerate() {
+            let m = &moduli[(k + e.bits() as usize) % moduli.len()];
+            cases.push((to_limbs(b, bits), to_limbs(e, bits), to_limbs(m, bits)));
+        }
+    }
+    r.universe(&format!("pow_mod at {bits} bits with exponents of 7 .. 4671 bits ({} cases)", cases.len()), bits, cases.len(), |i, l| {
+        l.states(1);
+        exec(l, bits, Op::pow_mod, &[vu(&cases[i].0), vu(&cases[i].1), vu(&cases[i].2)]);
+    });
+}
+
 fn c10(r: &Runner) {
     c10_periodic(r);
+    c10_long_exponents(r);
     r.set_rule("S(B)^3 = all triples of all values for B <= Smax (moduli include 0, 1, 2, 2^k, 2^B-1 automatically); at wide widths all triples over (limb alphabet product + P'(B)); inv_mod / reduce_mod on all pairs, and on every node of the quotient-sequence tree (inverse Euclid steps from seeds g in {1, 2, 15015, 2^64+1, 3*2^64+1, 2^128+1} with quotients {1,2,3,2^32-1,2^32,2^63,2^64-1}, every sequence with at most D deviations from the all-ones path). non-trivial = an operand is >= the modulus or the intermediate sum/product overflows BITS, or the modulus is 0");
     let smax = small_max(r, 6, 7);
     for bits in 0..=smax {
